@@ -826,6 +826,7 @@ func (e *engine) finish(q *bq, rrc bool) {
 			continue
 		}
 		keep := false
+		e.resolveDest(d)
 		if q.returned && d.resolved && d.dest >= 0 {
 			keep = d.dest == 0
 			for _, ent := range e.exports {
@@ -863,6 +864,9 @@ func (e *engine) loosen(q *bq) {
 func (e *engine) sendReturn(q *aq, r rpcsim.PeerReturn, caps []capRef) {
 	q.returned = true
 	q.exc = r.Exc != ""
+	if q.finishSeen {
+		caps = nil // A has cancelled the question: it ignores the Return and everything in it
+	}
 	q.retCaps = caps
 	q.retSerial = r.Serial
 	q.retBids = map[uint32]int{}
@@ -944,8 +948,8 @@ func (e *engine) due(q *bq) bool {
 	if q.dest >= 0 && q.held() && !q.opened && !q.finished {
 		return false
 	}
-	if q.dest == objLoose && !q.finished {
-		return false // may legitimately be stuck behind a cancelled answer's queue; cleaned up at the end
+	if q.dest == objLoose && q.held() && !q.opened && !q.finished {
+		return false // may or may not have been cancelled
 	}
 	return true
 }
@@ -1016,6 +1020,13 @@ func (e *engine) settle() error {
 		}
 		if missing == "" {
 			e.unsettled = map[uint32]int{}
+			if os.Getenv("VERIF_DEBUG") != "" {
+				for _, q := range e.allB {
+					if !q.returned {
+						e.logf("DEBUG unreturned at settle: id=%d serial=%d kind=%s dest=%d resolved=%v loose=%v finished=%v opened=%v held=%v", q.id, q.serial, q.kind, q.dest, q.resolved, q.loose, q.finished, q.opened, q.held())
+					}
+				}
+			}
 			return e.check()
 		}
 		if time.Since(t0) > Deadline {
@@ -1212,14 +1223,17 @@ func (e *engine) check() error {
 }
 
 func (e *engine) state() (rpc.VerifConnState, bool) {
-	for i := 0; i < 2000; i++ {
-		st := e.conn.VerifState()
-		if st.MuFree {
+	// trailing activity (a Release or Finish being sent from a goroutine of its own) may hold the locks for a moment
+	t0 := time.Now()
+	var st rpc.VerifConnState
+	for time.Since(t0) < Deadline {
+		st = e.conn.VerifState()
+		if st.MuFree && st.SenderFree {
 			return st, true
 		}
 		time.Sleep(50 * time.Microsecond)
 	}
-	return rpc.VerifConnState{}, false
+	return st, st.MuFree
 }
 
 func (e *engine) checkRefs() error {
@@ -1229,6 +1243,12 @@ func (e *engine) checkRefs() error {
 	}
 	if !st.SenderFree {
 		return e.fail("hang/sender-lock", "the sender lock is held at a quiescent point")
+	}
+	// (a call whose fate the protocol leaves open may produce its Return, with descriptors, at any moment)
+	for _, q := range e.allB {
+		if !q.returned && (q.loose || q.finished) {
+			return nil
+		}
 	}
 	// A's export table against B's count of what it holds
 	for id, ent := range e.exports {
@@ -1286,6 +1306,11 @@ func (e *engine) checkRefs() error {
 	for _, q := range e.allB {
 		if !q.returned {
 			quiet = false
+		}
+	}
+	for _, ent := range e.exports {
+		if ent.refs > 0 && ent.obj <= -100 {
+			quiet = false // B holds an export whose object the model could not identify (Return of a cancelled call)
 		}
 	}
 	for _, ac := range e.calls {
